@@ -195,6 +195,34 @@ def _subst_name(e, name, value):
     return T().visit(e)
 
 
+_MIRROR = {ast.Eq: ast.Eq, ast.NotEq: ast.NotEq, ast.Lt: ast.Gt, ast.Gt: ast.Lt, ast.LtE: ast.GtE, ast.GtE: ast.LtE}
+
+
+def _orient_comparisons(tree):
+    """normal form: a comparison of two effect-free operands (names, attribute chains, constants) is written with the
+    more variable operand on the left - name < attribute chain < constant, ties by text - and the operator mirrored,
+    so that `0 > delay`, `State.success == state` and their mirror images are one shape for every rule"""
+    if os.environ.get('VERIF_NO_ORIENT'):
+        return tree
+
+    def rank(e):
+        if isinstance(e, ast.Constant):
+            return 2
+        if isinstance(e, ast.Attribute):
+            return 1
+        return 0
+
+    for n in ast.walk(tree):
+        if isinstance(n, ast.Compare) and len(n.ops) == 1 and type(n.ops[0]) in _MIRROR:
+            a, b = n.left, n.comparators[0]
+            if _pure_prefix(a) and _pure_prefix(b):
+                ka, kb = (rank(a), ast.unparse(a)), (rank(b), ast.unparse(b))
+                if ka > kb:
+                    n.left, n.comparators = b, [a]
+                    n.ops = [_MIRROR[type(n.ops[0])]()]
+    return tree
+
+
 def _collapse_temps(tree):
     """behaviour-preserving normal form applied to every parsed module: a local that is assigned once and read once, by
     the very next statement, as its returned value / test / assigned value is substituted into that statement
@@ -268,6 +296,18 @@ def _collapse_temps(tree):
                     done = True
                 elif isinstance(nxt, ast.Expr) and is_t(nxt.value):
                     nxt.value = s.value
+                    done = True
+                elif isinstance(nxt, (ast.For, ast.AsyncFor)) and not isinstance(s.value, ast.IfExp) and _first_evaluated(nxt.iter, t):
+                    #     _it = f(x); for a in _it: ...      ->   for a in f(x): ...     (the iterable is evaluated once)
+                    nxt.iter = _subst_name(nxt.iter, t, s.value)
+                    done = True
+                elif (
+                    isinstance(nxt, (ast.With, ast.AsyncWith))
+                    and not isinstance(s.value, ast.IfExp)
+                    and _first_evaluated(nxt.items[0].context_expr, t)
+                ):
+                    #     _w = open(p); with _w as f: ...    ->   with open(p) as f: ...
+                    nxt.items[0].context_expr = _subst_name(nxt.items[0].context_expr, t, s.value)
                     done = True
                 elif (
                     isinstance(nxt, (ast.Return, ast.Expr, ast.Assign))
@@ -346,7 +386,7 @@ class Module:
         key = (path, self.digest)
         tree = _TREES.get(key)
         if tree is None:
-            tree = _TREES[key] = _collapse_temps(_Mangle().visit(ast.parse(source, path)))
+            tree = _TREES[key] = _collapse_temps(_orient_comparisons(_Mangle().visit(ast.parse(source, path))))
         self.tree = tree
         self.is_pkg = os.path.basename(path) == '__init__.py'
         self.imports = {}  # local name -> dotted target ('mod' or 'mod.sym')
@@ -396,8 +436,72 @@ class Program:
                 except SyntaxError as e:
                     raise AnalysisError(f'cannot parse {rel}: {e}') from e
         self._index_all()
+        self._positional_calls()
         if self._dissolve_helpers():
             self._index_all()
+
+    def _kw_prefix(self, c, f):
+        """number of leading keyword arguments of call c (in function f) that can be written positionally without
+        changing the evaluation order: the callee is a repository function with plain parameters and the keywords name
+        the parameters that follow the positional arguments, in order"""
+        if not c.keywords or any(isinstance(a, ast.Starred) for a in c.args) or any(k.arg is None for k in c.keywords):
+            return 0
+        if not isinstance(c.func, (ast.Name, ast.Attribute)):
+            return 0
+        sym = self.callee(c, f)
+        g = self.funcs.get(sym) if sym else None
+        if g is None or g.parent is not None:
+            return 0
+        a = g.node.args
+        if a.posonlyargs or a.vararg or g.node.decorator_list and not g.is_staticmethod():
+            return 0
+        params = [x.arg for x in a.args]
+        if g.cls is not None and not g.is_staticmethod():
+            if not (isinstance(c.func, ast.Attribute) and isinstance(c.func.value, ast.Name) and c.func.value.id == 'self'):
+                return 0
+            params = params[1:]
+        n = 0
+        for i, kw in enumerate(c.keywords):
+            j = len(c.args) + i
+            if j < len(params) and kw.arg == params[j]:
+                n += 1
+            else:
+                break
+        return n
+
+    def _positional_calls(self):
+        """normal form: f(a, q=b) -> f(a, b) for calls of repository functions whose keywords follow the parameter order
+        (same evaluation order, same binding): rules read the arguments of such calls by position"""
+        import copy
+
+        if os.environ.get('VERIF_NO_DISSOLVE'):
+            return
+        need = set()
+        for f in self.funcs.values():
+            if f.module.name in need:
+                continue
+            for c in f.calls():
+                if c.keywords and self._kw_prefix(c, f):
+                    need.add(f.module.name)
+                    break
+        if not need:
+            return
+        for mname in need:
+            m = self.modules[mname]
+            m.tree = copy.deepcopy(m.tree)
+        self._index_all()
+        for f in list(self.funcs.values()):
+            if f.module.name not in need:
+                continue
+            changed = False
+            for c in f.calls():
+                n = self._kw_prefix(c, f) if c.keywords else 0
+                if n:
+                    c.args = list(c.args) + [k.value for k in c.keywords[:n]]
+                    c.keywords = c.keywords[n:]
+                    changed = True
+            if changed:
+                f.__dict__.pop('_own', None)  # the cached node list still holds the detached keyword nodes
 
     def _dissolve_helpers(self):
         """behaviour-preserving normal form of the whole program: a helper that did not exist when the rules were written
